@@ -39,6 +39,13 @@ const (
 
 var c15Pairs = []string{"BTC/USD", "ETH/USD", "TIMESTAMP/NANOSECOND"}
 
+// c15UntrackedPair is priced by L1 validators but not registered in this L2's oracle module (an L2
+// normally tracks a subset of L1's pairs).
+const c15UntrackedPair = "ATOM/USD"
+
+// shWithUntracked (used by C18): signed(p) plus a price for the untracked pair. Not part of C15's matrix.
+const shWithUntracked = 100
+
 type c15Set struct {
 	name   string
 	vals   []string // key names
@@ -210,7 +217,10 @@ func (y *c15Sys) ext(s *c15State, price int64, pairs []string, ts int64) []byte 
 		}
 		enc, err := strat.GetEncodedPrice(s.ctx, cp, v)
 		if err != nil {
-			panic(err)
+			if p != c15UntrackedPair {
+				panic(err)
+			}
+			enc, _ = v.GobEncode() // a pair this chain does not track: L1 validators price it all the same
 		}
 		id, err := currencypair.CurrencyPairToHashID(p)
 		if err != nil {
@@ -300,6 +310,11 @@ func (y *c15Sys) build(s *c15State, votes []c15Vote, height uint64, ts int64) ([
 			if v.shape == shTwice {
 				entry(e, y.sign(v.key, c15ChainID, signH, c15Round, e), cmtproto.BlockIDFlagCommit)
 			}
+			mark(c15Pairs)
+		case shWithUntracked:
+			ps := append(append([]string{}, c15Pairs...), c15UntrackedPair)
+			e := y.ext(s, 50000, ps, ts)
+			entry(e, y.sign(v.key, c15ChainID, signH, c15Round, e), cmtproto.BlockIDFlagCommit)
 			mark(c15Pairs)
 		case shPriceQ:
 			e := y.ext(s, 70000, c15Pairs, ts)
